@@ -1,5 +1,6 @@
 (* Proofs/Parser.v — facts about Model/Parser.v.
-   Part 1: totality (no RFuel with fuel > remaining length; panics only where an external says so).
+   Part 1: totality (no RFuel with fuel > remaining length; panics only where an external says so;
+           no error of the dead variant ExpectedQuantifier: live_error).
    Part 2: exact characterisations (location arithmetic, whitespace, tokens, names, strings, integers). *)
 From TSG Require Import Model.Parser Spec.Render Proofs.BaseFacts.
 
@@ -17,6 +18,16 @@ Proof. intros E. unfold next. rewrite E. reflexivity. Qed.
 Lemma peek_eq s c r : p_rest s = c :: r -> peek s = ROk c s.
 Proof. intros E. unfold peek. rewrite E. reflexivity. Qed.
 
+(* the repaired parse_quantifier returns no ParseError at all (ExpectedQuantifier is dead) *)
+Lemma parse_quantifier_no_error s : match parse_quantifier s with RErr _ => False | _ => True end.
+Proof.
+  unfold parse_quantifier. destruct (match p_rest s with [] => None | c :: _ => quantifier_of c end); [|exact I].
+  unfold bind, skip_unwrap, next. destruct (p_rest s); exact I.
+Qed.
+
+(* the ParseError variants the parser can still produce: all but ExpectedQuantifier *)
+Definition live_error (e : parse_error) : Prop := match e with PEExpectedQuantifier _ => False | _ => True end.
+
 (* ================================================================== Part 1: totality *)
 Section Total.
   Variables (X : ext) (F : nat) (PanicAllowed : N -> Prop) (MissAllowed : Prop).
@@ -29,7 +40,7 @@ Section Total.
 
   Definition good {A} (P : A -> pst -> Prop) (r : pr A) : Prop :=
     match r with
-    | ROk a s' => P a s' | RErr _ => True | RPanic n => PanicAllowed n | RFuel => False | RMiss => MissAllowed
+    | ROk a s' => P a s' | RErr e => live_error e | RPanic n => PanicAllowed n | RFuel => False | RMiss => MissAllowed
     end.
 
   Notation LE s := (fun _ s' => (len s' <= len s)%nat).
@@ -49,8 +60,8 @@ Section Total.
 
   Lemma good_ret {A} (P : A -> pst -> Prop) a s : P a s -> good P (ret a s).
   Proof. auto. Qed.
-  Lemma good_fail {A} (P : A -> pst -> Prop) e s : good P (fail e s).
-  Proof. exact I. Qed.
+  Lemma good_fail {A} (P : A -> pst -> Prop) e s : live_error e -> good P (fail e s).
+  Proof. intros H. exact H. Qed.
 
   Lemma get_loc_good s : good (fun _ s' => s' = s) (get_loc s).
   Proof. reflexivity. Qed.
@@ -154,14 +165,14 @@ Section Total.
     eapply good_weaken; [apply string_loop_good; lia|]. cbv beta; intros; lia.
   Qed.
 
-  Lemma parse_quantifier_good s : good (LE s) (parse_quantifier X s).
+  Lemma parse_quantifier_good s : good (LE s) (parse_quantifier s).
   Proof.
     unfold parse_quantifier. destruct (p_rest s) as [|c r] eqn:E; [cbn; lia|].
+    destruct (quantifier_of c) as [q|]; [|cbn; lia].
     unfold bind at 1. rewrite (skip_unwrap_eq _ _ _ _ E).
     assert (Hl : len s = S (length r)) by (unfold len; rewrite E; reflexivity).
     assert (Ha : (len (advance s c r) <= len s)%nat) by (rewrite len_advance; lia).
-    destruct (c =? 63); [gstep|]. destruct (c =? 42); [gstep|]. destruct (c =? 43); [gstep|].
-    destruct (negb (is_whitespace X c)); [|gstep]. gstep. gstep.
+    gstep.
   Qed.
 
   Lemma parse_global_good s : (len s < F)%nat -> good (LT s) (parse_global X F s).
@@ -572,6 +583,23 @@ Proof.
     - unfold len, fuel_of, init_state. cbn. lia. }
   destruct (parse_into_file X (fuel_of text) (init_state text)) as [a s| e | n | |]; cbn in H'; try contradiction; auto.
   destruct (error_obs e) as [[v l] p]. exact I.
+Qed.
+
+(* the error variant ExpectedQuantifier (number 1) is never returned, whatever the externals answer *)
+Lemma parse_never_expected_quantifier_lemma X text :
+  match parse X (fuel_of text) text with PErr v _ _ => v <> 1 | _ => True end.
+Proof.
+  unfold parse.
+  pose proof (parse_into_file_good X (fuel_of text) (fun n => True) True) as H.
+  assert (H' : good (fun n => True) True (fun (_ : facc) (s' : pst) => (len s' <= len (init_state text))%nat)
+                (parse_into_file X (fuel_of text) (init_state text))).
+  { apply H.
+    - intros a b. destruct (x_query X a b) as [[n [i|]|]|]; auto.
+    - intros q. destruct (x_merged X q) as [[|]|]; auto.
+    - auto.
+    - unfold len, fuel_of, init_state. cbn. lia. }
+  destruct (parse_into_file X (fuel_of text) (init_state text)) as [a s| e | n | |]; cbn in H'; try exact I.
+  destruct e; cbn [error_obs]; try discriminate. contradiction.
 Qed.
 
 (* ================================================================== Part 2: exact characterisations *)
